@@ -20,6 +20,7 @@ PROPS = {
     "C12": {"jobs": [{"pkg": "hostile", "run": "^(TestC12|FuzzC12Decode)$", "checks_quick": 6000, "checks_thorough": 12000, "shards_thorough": 12, "wal": True},
                      {"pkg": "hostile", "fuzz": "FuzzC12Decode", "tiers": ["thorough"], "shards_thorough": 1, "fuzztime_thorough": "240s"}]},
     "C15": {"jobs": [{"pkg": "iter", "run": "^TestC15$", "checks_quick": 4000, "checks_thorough": 6000, "shards_thorough": 16}]},
+    "C17": {"jobs": [{"pkg": "load", "run": "^TestC17$", "checks_quick": 1500, "checks_thorough": 600, "shards_thorough": 16}]},
     "C18": {"jobs": [{"pkg": "codec", "run": "^TestC18$", "checks_quick": 3000, "checks_thorough": 5000, "shards_thorough": 16}]},
     "C19": {"jobs": [{"pkg": "order", "run": "^TestC19$", "checks_quick": 60000, "checks_thorough": 150000, "shards_thorough": 16}]},
 }
